@@ -32,6 +32,7 @@ fn main() {
         Some("replay") => driver::replay_main(&args[2..]),
         Some("selftest") => driver::selftest_main(),
         Some("gen") => driver::gen_main(&args[2..]),
+        Some("list") => { for id in checks::ALL { println!("{}", id); } 0 }
         _ => { eprintln!("usage: sim check|worker|replay|probe|selftest ..."); 2 }
     };
     std::process::exit(code);
